@@ -1,5 +1,5 @@
 (** * C16 — built-in agents emit only valid instructions and never abort a simulation *)
-From Bourse Require Import Model.Types Model.Side Model.Book Model.Rng Model.Float Model.Env Model.Agents Proofs.AgentProps Proofs.AgentDir Proofs.AgentOrders Proofs.FloatSym Proofs.FloatQuote Proofs.FloatQuote2.
+From Bourse Require Import Model.Types Model.Side Model.Book Model.Rng Model.Float Model.Env Model.Agents Proofs.AgentProps Proofs.AgentDir Proofs.AgentOrders Proofs.FloatSym Proofs.FloatQuote Proofs.FloatQuote2 Proofs.RandomOneLive.
 From Coq Require Import Reals.
 From Flocq Require Import Core.Core IEEE754.BinarySingleNaN.
 
@@ -47,6 +47,23 @@ Proof. exact momentum_update_orders. Qed.
 Theorem c16_random_agent_orders : forall e c a p n slot e' c' slot',
   random_slot e c a p n slot = Ok (e', c', slot') -> adds_only (random_order p n) a e e'.
 Proof. exact random_slot_orders. Qed.
+
+(** "A random agent never holds more than one live order": a trader whose remembered order is Active
+    when it looks never submits a new one - it queues the cancellation of that order (and forgets
+    it) or does nothing; a new order is submitted only when the trader remembers none or the
+    remembered one is no longer Active, and the trader then remembers exactly the new id. *)
+Theorem c16_random_trader_with_live_order_never_places : forall e c a p n id e' c' slot',
+  random_slot e c a p n (Some id) = Ok (e', c', slot') -> order_status e a id = Ok SActive ->
+  en_market e' = en_market e /\
+  ((slot' = Some id /\ en_queue e' = en_queue e) \/ (slot' = None /\ en_queue e' = en_queue e ++ [MCancel a id])).
+Proof. exact random_slot_active_never_places. Qed.
+
+Theorem c16_random_trader_places_only_when_free : forall e c a p n slot e' c' slot',
+  random_slot e c a p n slot = Ok (e', c', slot') -> en_market e' <> en_market e ->
+  (slot = None \/ exists id st, slot = Some id /\ order_status e a id = Ok st /\ st <> SActive) /\
+  exists b x id', nth_error (en_market e) a = Some b /\ slot' = Some id' /\ id' = length (b_orders b) /\
+                  nth_error (en_market e') a = Some (set_orders b (b_orders b ++ [x])).
+Proof. exact random_slot_places_only_when_free. Qed.
 
 (** Cancellations: the instructions an agent's cancel pass queues are cancellations
     of ids taken from the agent's own list of live orders, each Active at the
@@ -169,6 +186,8 @@ Print Assumptions c16_noise_agent_orders.
 Print Assumptions c16_momentum_agent_orders.
 Print Assumptions c16_random_agent_orders.
 Print Assumptions c16_cancels_own_active_orders.
+Print Assumptions c16_random_trader_with_live_order_never_places.
+Print Assumptions c16_random_trader_places_only_when_free.
 Print Assumptions c16_buy_quote_at_or_below_mid.
 Print Assumptions c16_sell_quote_at_or_above_mid.
 Print Assumptions c16_buy_quote_at_or_below_mid_any_book.
